@@ -60,40 +60,45 @@ def judge(T, opts, path=None, slabs=None):
     return synth.check_slices(cat, T, opts['cleaned'], load_AB_of(opts['subsamples']), slabs=slabs)
 
 
-def check(run):
-    run.level = 'exploration'
-    nev, ncat = 0, 0
-    bad = None
-    samples = []
-    layouts = LAYOUTS if run.tier == 'quick' else LAYOUTS + [(2, 7, 1), (6,), (1, 0, 1, 0, 2)]
-    for li, layout in enumerate(layouts):
-        root = tempfile.mkdtemp(prefix='c01_')
-        try:
-            T = synth.make_catalog(root, layout, seed=run.seed + li, max_np=3)
-            ncat += 1
-            for opts in option_matrix(run.tier):
-                why = judge(T, opts)
+def _layout_worker(task):
+    li, layout, seed, tier = task
+    nev, bad = 0, None
+    root = tempfile.mkdtemp(prefix='c01_')
+    try:
+        T = synth.make_catalog(root, layout, seed=seed + li, max_np=3)
+        for opts in option_matrix(tier):
+            why = judge(T, opts)
+            nev += 1
+            if why and not bad:
+                bad = (dict(halos_per_superslab=list(layout), options={k: str(v) for k, v in opts.items()}), why)
+        # single file / file list (incl. files that do not start at superslab 0)
+        base = dict(cleaned=True, subsamples=dict(A=True, B=True, rvint=True, packedpid=True), passthrough=True, fields='all')
+        n = len(layout)
+        sels = [[i] for i in range(n)] + ([list(range(1, n))] if n > 2 else []) + ([[0, n - 1]] if n > 2 else [])
+        for sel in sels:
+            files = synth.halo_files(T, sel)
+            for cleaned in (True, False):
+                o = dict(base, cleaned=cleaned)
+                why = judge(T, o, path=files if len(files) > 1 else files[0], slabs=sel)
                 nev += 1
-                if len(samples) < 2:
-                    samples.append(dict(halos_per_superslab=list(layout), options={k: (v if not isinstance(v, dict) else dict(v)) for k, v in opts.items()}))
                 if why and not bad:
-                    bad = (dict(halos_per_superslab=list(layout), options={k: str(v) for k, v in opts.items()}), why)
-            # single file / file list (incl. files that do not start at superslab 0)
-            base = dict(cleaned=True, subsamples=dict(A=True, B=True, rvint=True, packedpid=True), passthrough=True, fields='all')
-            n = len(layout)
-            sels = [[i] for i in range(n)] + ([list(range(1, n))] if n > 2 else []) + ([[0, n - 1]] if n > 2 else [])
-            for sel in sels:
-                files = synth.halo_files(T, sel)
-                for cleaned in (True, False):
-                    o = dict(base, cleaned=cleaned)
-                    why = judge(T, o, path=files if len(files) > 1 else files[0], slabs=sel)
-                    nev += 1
-                    if why and not bad:
-                        bad = (dict(halos_per_superslab=list(layout), files=sel, cleaned=cleaned), f'files {sel}: {why}')
-        finally:
-            shutil.rmtree(root, ignore_errors=True)
-        if bad:
-            break
+                    bad = (dict(halos_per_superslab=list(layout), files=sel, cleaned=cleaned), f'files {sel}: {why}')
+    finally:
+        shutil.rmtree(root, ignore_errors=True)
+    return nev, bad
+
+
+def check(run):
+    run.level = 'other'
+    for sp in zipper_specs(run.tier):
+        run.prove(sp, zipper_replayer)
+    run.discharge()
+    layouts = LAYOUTS if run.tier == 'quick' else LAYOUTS + [(2, 7, 1), (6,), (1, 0, 1, 0, 2)]
+    res = run.pmap(_layout_worker, [(li, layout, run.seed, run.tier) for li, layout in enumerate(layouts)])
+    nev = sum(r[0] for r in res)
+    ncat = len(layouts)
+    bad = next((r[1] for r in res if r[1]), None)
+    samples = [dict(halos_per_superslab=list(layouts[0]), options=str(option_matrix(run.tier)[0]))]
     # a catalogue whose superslab numbers are not 0,1,2,... (directory with a missing slab)
     if not bad:
         root = tempfile.mkdtemp(prefix='c01_')
@@ -111,10 +116,150 @@ def check(run):
     run.add_bounded('real CompaSOHaloCatalog on synthetic catalogues vs independent slice oracle', nev, ncat,
                     'superslab layouts incl. empty slabs / empty catalogue / non-contiguous slab numbers; L0 gaps, zero-particle halos, cleaned-away halos, merged ranges; cleaned on/off x A/B/both x rvint/packedpid/pos/vel/pid x unpack_bits x passthrough x directory / single file / file subsets',
                     samples)
-    run.extra['explanation'] = 'bounded run-time contract check (E3); no deductive obligations are claimed for the loader plumbing'
+    run.extra['explanation'] = ('per-halo zipper kernels (_unpack_rv_subsamples, _unpack_pid_subsamples) under a deductive SAFETY contract on the real ASTs: every '
+                                'subscript / slice store in bounds, shapes agree and the decoder preconditions hold for every well-formed catalogue (write offsets = '
+                                'running sums, read ranges inside the slab arrays), all output selections, cleaned on/off; the FUNCTIONAL property (each slice holds the '
+                                'halo\'s own records) is decided only by the bounded run-time contract check on synthetic catalogues; new-offset arithmetic is the C19 '
+                                'cumsum contract')
     run.assumptions += ['ASDF files written uncompressed (blosc stubbed); astropy/asdf object layer trusted',
                         'light-cone layout (_load_halo_lc_subsamples) not covered by this check']
 
 
+def zipper_replayer(obl, model):
+    """a failed zipper obligation is replayed through the real loader on the synthetic catalogues (passthrough + unpacked)"""
+    for li, layout in enumerate([(4, 0, 5), (3,)]):
+        root = tempfile.mkdtemp(prefix='c01r_')
+        try:
+            T = synth.make_catalog(root, layout, seed=li, max_np=3)
+            for opts in option_matrix('quick'):
+                why = judge(T, opts)
+                if why:
+                    return True, f'halos per superslab {list(layout)}, options {opts}: {why}'
+        finally:
+            shutil.rmtree(root, ignore_errors=True)
+    return False, 'no case reproduced'
+
+
 def replay_file(rec, repo):
-    return True
+    return zipper_replayer(None, None)[0]
+
+
+# ======================================================================================================================
+# deductive part: the per-halo read/write zipper kernels (real ASTs, E1) against the callee contracts of the C04 decoders
+# ======================================================================================================================
+from pyvc.engine import FnSpec, LoopSpec, CalleeSpec, SV, Arr, DT       # noqa: E402
+from contracts import C04                                               # noqa: E402
+
+CHC = 'abacusnbody/data/compaso_halo_catalog.py'
+
+WELLFORMED = [
+    'len(slab_read_lens) == len(slab_read_offsets)', 'len(slab_write_offsets) == len(slab_read_offsets) + 1',
+    # read ranges lie inside the slab particle array (L0 gaps between them are allowed)
+    'forall(h, 0, len(slab_read_offsets), 0 <= slab_read_offsets[h] and 0 <= slab_read_lens[h] and slab_read_offsets[h] + slab_read_lens[h] <= len({slab}))',
+    # write offsets are the running sums of (original + merged) lengths (established by util.cumsum, C19) and stay inside the outputs
+    'forall(h, 0, len(slab_read_offsets), slab_write_offsets[h + 1] == slab_write_offsets[h] + slab_read_lens[h] + {clen})',
+    'forall((a, b), 0 <= a and a <= b and b <= len(slab_read_offsets), slab_write_offsets[a] <= slab_write_offsets[b])',
+    '0 <= slab_write_offsets[0]',
+]
+CLEAN_WF = ['len(clean_slab_read_offsets) == len(slab_read_offsets)', 'len(clean_slab_read_lens) == len(slab_read_offsets)',
+            'forall(h, 0, len(slab_read_offsets), 0 <= clean_slab_read_offsets[h] and 0 <= clean_slab_read_lens[h] and '
+            'clean_slab_read_offsets[h] + clean_slab_read_lens[h] <= len({cslab}))']
+
+
+def spec_zipper_rv(outputs, cleaned, functional=False):
+    """outputs: subset of {'pos','vel','rvint'}.  functional=False: safety contract only (every subscript and slice store in
+    bounds, shapes agree, callee preconditions of the decoders hold) under the well-formedness precondition; functional=True adds
+    the per-halo zipper postcondition and the frame (two-variable quantified invariants: slow and solver-sensitive, used in the
+    thorough tier only and never required for the verdict)"""
+    args = dict(pos='real[:,3]' if 'pos' in outputs else None, vel='real[:,3]' if 'vel' in outputs else None,
+                rvint='i32[:,3]' if 'rvint' in outputs else None, slab_rvint='i32[:,3]!ro', slab_read_offsets='int[:]!ro',
+                slab_read_lens='int[:]!ro', slab_write_offsets='int[:]!ro', boxsize='real',
+                clean_slab_rvint='i32[:,3]!ro' if cleaned else None, clean_slab_read_offsets='int[:]!ro' if cleaned else None,
+                clean_slab_read_lens='int[:]!ro' if cleaned else None)
+    clen = 'clean_slab_read_lens[h]' if cleaned else '0'
+    req = [r.format(slab='slab_rvint', clen=clen) for r in WELLFORMED]
+    if cleaned:
+        req += [r.format(cslab='clean_slab_rvint') for r in CLEAN_WF]
+    for o in sorted(outputs):
+        req.append(f'slab_write_offsets[len(slab_read_offsets)] <= len({o})')
+    H = 'len(slab_read_offsets)'
+
+    def rows(upto):
+        cl = []
+        for c in range(3):
+            if 'pos' in outputs:
+                cl.append(f'forall((h, q), 0 <= h and h < {upto} and 0 <= q and q < slab_read_lens[h], '
+                          f'pos[slab_write_offsets[h] + q, {c}] == RVPOS(slab_rvint[slab_read_offsets[h] + q, {c}], boxsize))')
+            if 'vel' in outputs:
+                cl.append(f'forall((h, q), 0 <= h and h < {upto} and 0 <= q and q < slab_read_lens[h], '
+                          f'vel[slab_write_offsets[h] + q, {c}] == RVVEL(slab_rvint[slab_read_offsets[h] + q, {c}]))')
+            if 'rvint' in outputs:
+                cl.append(f'forall((h, q), 0 <= h and h < {upto} and 0 <= q and q < slab_read_lens[h], '
+                          f'rvint[slab_write_offsets[h] + q, {c}] == slab_rvint[slab_read_offsets[h] + q, {c}])')
+            if cleaned:
+                if 'pos' in outputs:
+                    cl.append(f'forall((h, q), 0 <= h and h < {upto} and 0 <= q and q < clean_slab_read_lens[h], '
+                              f'pos[slab_write_offsets[h] + slab_read_lens[h] + q, {c}] == RVPOS(clean_slab_rvint[clean_slab_read_offsets[h] + q, {c}], boxsize))')
+                if 'vel' in outputs:
+                    cl.append(f'forall((h, q), 0 <= h and h < {upto} and 0 <= q and q < clean_slab_read_lens[h], '
+                              f'vel[slab_write_offsets[h] + slab_read_lens[h] + q, {c}] == RVVEL(clean_slab_rvint[clean_slab_read_offsets[h] + q, {c}]))')
+                if 'rvint' in outputs:
+                    cl.append(f'forall((h, q), 0 <= h and h < {upto} and 0 <= q and q < clean_slab_read_lens[h], '
+                              f'rvint[slab_write_offsets[h] + slab_read_lens[h] + q, {c}] == clean_slab_rvint[clean_slab_read_offsets[h] + q, {c}])')
+        # frame: rows outside [wo[0], wo[upto]) keep their contents (other files' slices stay intact)
+        for o in sorted(outputs):
+            cl.append(f'forall((r, c), 0 <= r and r < len({o}) and 0 <= c and c < 3 and (r < slab_write_offsets[0] or r >= slab_write_offsets[{upto}]), '
+                      f'{o}[r, c] == old({o}[r, c]))')
+        return cl
+    def per_halo_hints():
+        """the new halo's rows alone (one bound variable), proved from the callee contract before the two-variable invariant"""
+        out = []
+        for cl in rows('i'):
+            if not cl.startswith('forall((h, q)'):
+                continue
+            body = cl[len('forall((h, q), 0 <= h and h < i and '):]
+            body = body.replace('[h]', '[i - 1]')
+            out.append('forall((q,), ' + body)
+        return out
+    if not functional:
+        return FnSpec(CHC, 'CompaSOHaloCatalog._unpack_rv_subsamples', prop='C01',
+                      name=f'_unpack_rv_subsamples.safety[{"+".join(sorted(outputs))},cleaned={cleaned}]', mode='bv', args=args, ghosts=C04.ghosts,
+                      requires=req, callees={'..bitpacked._unpack_rvint': C04.RV_CALLEE},
+                      loops={0: LoopSpec(invariant=['0 <= i and i <= ' + H])})
+    return FnSpec(CHC, 'CompaSOHaloCatalog._unpack_rv_subsamples', prop='C01',
+                  name=f'_unpack_rv_subsamples[{"+".join(sorted(outputs))},cleaned={cleaned}]', mode='bv', args=args, ghosts=C04.ghosts,
+                  requires=req, ensures=rows(H), frame=sorted(outputs),
+                  callees={'..bitpacked._unpack_rvint': C04.RV_CALLEE},
+                  loops={0: LoopSpec(invariant=['0 <= i and i <= ' + H] + rows('i'), asserts=per_halo_hints())})
+
+
+def spec_zipper_pid(outputs, cleaned):
+    """safety contract of _unpack_pid_subsamples; outputs: subset of {'pid','lagr_pos','tagged','density','lagr_idx','packedpid'}"""
+    types = dict(pid='i64[:]', lagr_pos='real[:,3]', tagged='u8[:]', density='real[:]', lagr_idx='i16[:,3]', packedpid='u64[:]')
+    args = dict(slab_packedpid='u64[:]!ro', slab_read_offsets='int[:]!ro', slab_read_lens='int[:]!ro', slab_write_offsets='int[:]!ro',
+                boxsize='real', ppd='int', clean_slab_packedpid='u64[:]!ro' if cleaned else None,
+                clean_slab_read_offsets='int[:]!ro' if cleaned else None, clean_slab_read_lens='int[:]!ro' if cleaned else None)
+    for o, t in types.items():
+        args[o] = t if o in outputs else None
+    clen = 'clean_slab_read_lens[h]' if cleaned else '0'
+    req = [r.format(slab='slab_packedpid', clen=clen) for r in WELLFORMED] + ['ppd >= 1']
+    if cleaned:
+        req += [r.format(cslab='clean_slab_packedpid') for r in CLEAN_WF]
+    for o in sorted(outputs):
+        req.append(f'slab_write_offsets[len(slab_read_offsets)] <= len({o})')
+    return FnSpec(CHC, 'CompaSOHaloCatalog._unpack_pid_subsamples', prop='C01',
+                  name=f'_unpack_pid_subsamples.safety[{"+".join(sorted(outputs))},cleaned={cleaned}]', mode='bv', args=args, ghosts=C04.ghosts,
+                  requires=req, callees={'..bitpacked._unpack_pids': C04.PID_CALLEE},
+                  loops={0: LoopSpec(invariant=['0 <= i and i <= len(slab_read_offsets)'])})
+
+
+def zipper_specs(tier):
+    out = []
+    for cleaned in (True, False):
+        for outs in ({'pos', 'vel'}, {'rvint'}, {'pos'}, {'vel', 'rvint', 'pos'}):
+            out.append(spec_zipper_rv(outs, cleaned))
+        for outs in ({'pid'}, {'packedpid'}, {'pid', 'lagr_pos', 'tagged', 'density', 'lagr_idx'}, {'pid', 'packedpid', 'lagr_idx'}):
+            out.append(spec_zipper_pid(outs, cleaned))
+    if tier == 'thorough':
+        out += [spec_zipper_rv({'rvint'}, False, functional=True), spec_zipper_rv({'pos'}, False, functional=True)]
+    return out
